@@ -76,6 +76,9 @@ let run_case (fuel : nat) (c : Sexp.t) : (string * Sexp.t * Sexp.t option) optio
     model_only (sexp_of_pres sexp_of_rule (parse_rule sg cx fuel (str_of_atom s)))
   | L [A "show-term"; t] ->
     model_only (L [A "ok"; sexp_of_str (show_term (term_of t))])
+  | L [A "show-parse"; t] ->
+    let text = show_term (term_of t) in
+    model_only (L [A "ok"; sexp_of_str text; Ops_parse.sexp_of_pres sexp_of_term (parse_term fuel text)])
   | L [A "show-goal"; g] ->
     model_only (sexp_of_res sexp_of_str (show_goal (goal_of g)))
   | L [A "show-rule"; r] ->
